@@ -10,7 +10,7 @@ use serde_json::json;
 pub fn prop() -> Prop {
   Prop {
     id: "C16",
-    rule: "case = (producer: interval(p) on the virtual scheduler, from_iter over a counting iterator of 40 items, from_stream over a counting stream of 40 ready items; 0..3 intermediate operators that do not end the stream themselves (take(30+), take_while(true), skip_last, map, filter, tap, scan, skip, skip_while, start_with, distinct_until_changed, pairwise, buffer_with_count, finalize, box_it, on_complete, default_if_empty, on_error_map, complete_status); an early-terminating operator: take(n>=1), first, element_at, take_while, contains, all, take_until(hot notifier); the producer chain either is the main input of the cutter or sits in the second (notifier/other) position of merge / zip / combine_latest / with_latest_from / sample / buffer / skip_until / take_until whose main input is a scripted hot input, with the cutter on top; local and thread-safe builds; script of <= 10 emissions / clock advances; one case in eight ends the stream late: producers of 160 items, take / element_at / take_while at 33..120, clock advances of 20..80 ticks; one case in five: the producer chain is the MAIN input of merge / zip / combine_latest / with_latest_from / sample / buffer / skip_until / take_until whose second input is a scripted hot subject (a gate that may stay silent), and the stream is ended by something else downstream - take_until(second hot subject), or take(k) over a merge with a cold sibling of k items that fills it at subscription). \
+    rule: "case = (producer: interval(p) on the virtual scheduler, from_iter over a counting iterator of 40 items, from_stream over a counting stream of 40 ready items; 0..3 intermediate operators that do not end the stream themselves (take(30+), take_while(true), skip_last, map, filter, tap, scan, skip, skip_while, start_with, distinct_until_changed, pairwise, buffer_with_count, finalize, box_it, on_complete, default_if_empty, on_error_map, complete_status, and the timer-owning buffer_with_time, buffer_with_count_and_time, debounce, throttle_time); an early-terminating operator: take(n>=1), first, element_at, take_while, contains, all, take_until(hot notifier); the producer chain either is the main input of the cutter or sits in the second (notifier/other) position of merge / zip / combine_latest / with_latest_from / sample / buffer / skip_until / take_until whose main input is a scripted hot input, with the cutter on top; local and thread-safe builds; script of <= 10 emissions / clock advances; one case in eight ends the stream late: producers of 160 items, take / element_at / take_while at 33..120, clock advances of 20..80 ticks; one case in five: the producer chain is the MAIN input of merge / zip / combine_latest / with_latest_from / sample / buffer / skip_until / take_until whose second input is a scripted hot subject (a gate that may stay silent), and the stream is ended by something else downstream - take_until(second hot subject), or take(k) over a merge with a cold sibling of k items that fills it at subscription). \
            Oracle (applied when the subscriber received its terminal): running the scheduler until idle terminates - after at most (number of periodic producers) further timer firings no timer is pending and no scheduled task is alive; a counting iterator is asked for at most one more item after the terminal; a counting stream is polled at most once more. Non-trivial: the terminal was caused by the cutter (not by the producer running out) and there is >= 1 intermediate operator or the producer is in notifier position. Distinct by hash(case).",
     assumptions: &["iterators and streams are bounded (40 items) so that a producer that is not stopped shows up as extra pulls, not as a hang"],
     parts: vec![Part { name: "producers", run: run_case, tape_len: 64, quick_cases: 600_000, thorough_cases: 12_000_000, exhaustive_depth: None, exhaustive_budget: 0, exh_quick: false }],
@@ -28,7 +28,13 @@ struct Case {
 }
 
 fn gen_mid(c: &mut dyn Choices) -> Un {
-  match c.pick(20) {
+  match c.pick(24) {
+    // (added as the last alternatives: recorded tapes keep their meaning) operators that own a timer of their own: it has
+    // to retire as well once the stream has ended downstream, or the scheduler never becomes idle
+    20 => Un::BufferWithTime(1 + c.pick(3) as u64),
+    21 => Un::BufferWithCountAndTime(1 + c.pick(3), 1 + c.pick(3) as u64),
+    22 => Un::Debounce(1 + c.pick(2) as u64),
+    23 => Un::ThrottleTime(1 + c.pick(2) as u64, gen_edge(c)),
     // early-terminating operators that will not trigger themselves but must pass the
     // downstream "finished" state on to the producer
     16 => Un::Take(30 + c.pick(10)),
@@ -206,6 +212,23 @@ fn run_case(c: &mut dyn Choices, ctx: &Ctx) -> Outcome {
   if case.pcase.kinds.len() == 2 {
     labels.push("shape:gated-main-input");
   }
+  // intermediate operators with a timer of their own may need one more firing each to notice the end
+  let mut timed = 0usize;
+  case.pcase.node.visit(&mut |n| {
+    if let Node::Un(Un::BufferWithTime(_) | Un::BufferWithCountAndTime(..) | Un::Debounce(_) | Un::ThrottleTime(..), ..) = n {
+      timed += 1
+    }
+  });
+  if timed > 0 {
+    labels.push("timer-owning-intermediate");
+  }
+  // Without such operators the producer's own next firing (and one more for a second periodic producer) must be the
+  // last. With them, one-shot timers that were already pending when the stream ended still fall due and may hand an
+  // item to the next timer-owning operator downstream, which arms its timer once more: the count is not bounded by a
+  // small constant, so there only "idle and nothing alive at the end of the bounded drain" is required.
+  let slack: u64 = if timed > 0 { 1_000 } else { 2 };
+  // not idle, but the terminal came within the last firings of the bounded drain: retirement could not be observed
+  let late_margin: u64 = if timed > 0 { 8 } else { 2 };
   let mut nt = false;
   let verdict = match &res {
     Err(m) => Verdict::Violation { sig: format!("panic:{pname}:{pos}"), detail: m.clone() },
@@ -232,12 +255,12 @@ fn run_case(c: &mut dyn Choices, ctx: &Ctx) -> Outcome {
             sig: format!("not-retired:{pname}:{pos}"),
             detail: format!("the subscriber got its terminal after {} polls of the stream, but it was polled {} times in the end", at.stream_polls, tr.counters.stream_polls),
           }
-        } else if !tr.quiescent && tr.counters.clock_firings <= at.clock_firings + 2 {
+        } else if !tr.quiescent && tr.counters.clock_firings <= at.clock_firings + late_margin {
           // the terminal came so late in the bounded final drain that retirement could not be observed
           labels.push("inconclusive:terminal-at-end-of-drain");
           nt = false;
           Verdict::Ok
-        } else if !tr.quiescent || tr.live_tasks_end > 0 || tr.counters.clock_firings > at.clock_firings + 2 {
+        } else if !tr.quiescent || tr.live_tasks_end > 0 || tr.counters.clock_firings > at.clock_firings + slack {
           Verdict::Violation {
             sig: format!("not-retired:{pname}:{pos}"),
             detail: format!("after the terminal the scheduler does not become idle: {} timer firings after the terminal, quiescent={}, {} scheduled task(s) still alive, {} timer(s) pending", tr.counters.clock_firings - at.clock_firings, tr.quiescent, tr.live_tasks_end, tr.pending_timers_end),
